@@ -18,7 +18,8 @@ CONSTANTS Mode,        \* "revoked" | "honest"
           MaxReload,
           Layouts,     \* the shapes of second-stage transactions the cheater may use (see Layout)
           MaxUnwind,   \* reorganisations that take confirmed transactions out of the chain again
-          Defect       \* "none"; a planted defect of the monitor (spec mutants: TLC must refute them)
+          Defect,      \* "none"; a planted defect of the monitor (spec mutants: TLC must refute them)
+          Features     \* "dup_hash": two pending HTLCs with one payment hash
 
 VARIABLES stage,   \* "start" | "react" | "idle" | "fair" | "done"
           nextId, shape, blocks, reloads, unwinds, hist
@@ -37,6 +38,7 @@ Menu == { [k |-> "offered", amt |-> 5000, hash |-> 1, pk |-> FALSE],
           [k |-> "received", amt |-> 6000, hash |-> 2, pk |-> TRUE],
           [k |-> "received", amt |-> 7000, hash |-> 3, pk |-> FALSE] }
         \cup (IF "fee_between" \in Layouts THEN {[k |-> "received", amt |-> 8000, hash |-> 4, pk |-> TRUE]} ELSE {})
+        \cup (IF "dup_hash" \in Features THEN {[k |-> "received", amt |-> 7500, hash |-> 3, pk |-> FALSE]} ELSE {})
 
 RECURSIVE SeqOf(_)
 SeqOf(S) == IF S = {} THEN <<>> ELSE LET x == CHOOSE y \in S : \A z \in S : y.hash <= z.hash
@@ -97,7 +99,9 @@ Needs(n) ==
   IF ~ComConf THEN {}
   ELSE IF com.revoked
     THEN IF n = Victim THEN {o \in SeenClaimable : ~Spent(o) /\ ~HasLiveClaim(n, o) /\ ~ClaimedBefore(n, o)} ELSE {}
+    \* ("first_match": of several HTLCs with one payment hash only the first is claimed with the preimage)
     ELSE {OP(r) : r \in {x \in Outs : /\ IsHtlc(x) /\ ~Spent(OP(x)) /\ ~HasLiveClaim(n, OP(x)) /\ ~ClaimedBefore(n, OP(x))
+                                       /\ (Defect = "first_match" /\ Inbound(n, x)) => \A y \in Outs : (IsHtlc(y) /\ y.hash = x.hash) => x.v <= y.v
                                        /\ \/ (Outbound(n, x) /\ height >= x.exp)
                                           \/ (Inbound(n, x) /\ x.hash \in known[n + 1])}}
 SeqOfOps(S) == LET RECURSIVE F(_)
